@@ -47,18 +47,63 @@ theorem string_parse_roundtrip_i (i : I128) : I128.fromString i.toString = some 
   show some (I128.fromBigInt i.toInt) = some i
   rw [← I128.asBigInt_eq, I128.fromBigInt_asBigInt]
 
+/-- **the loader never writes on failure** — about `loadGen .checkThenStore`, the order of the statements in the code
+    (`v, err := FromString(text); if err != nil { return err }; *u = v`), for EVERY receiver and EVERY text: the loader
+    reports success exactly when the text parses; on success the receiver holds the parsed value; on failure the receiver
+    is the one it was.  (`U128.unmarshal`, `unmarshalYAML`, `scanInto` are this loader; the same definition with the other
+    order is the CONTRAST `load_store_before_check_writes`.) -/
+theorem load_failure_never_writes (r : U128) (q : I128) (s : List Char) :
+    ((U128.loadGen .checkThenStore r s).2 = (parseToBigInt s).isSome ∧
+      (∀ z, parseToBigInt s = some z → U128.loadGen .checkThenStore r s = (U128.fromBigInt z, true)) ∧
+      ((U128.loadGen .checkThenStore r s).2 = false → (U128.loadGen .checkThenStore r s).1 = r)) ∧
+    ((I128.loadGen .checkThenStore q s).2 = (parseToBigInt s).isSome ∧
+      (∀ z, parseToBigInt s = some z → I128.loadGen .checkThenStore q s = (I128.fromBigInt z, true)) ∧
+      ((I128.loadGen .checkThenStore q s).2 = false → (I128.loadGen .checkThenStore q s).1 = q)) := by
+  unfold U128.loadGen I128.loadGen U128.fromStringGo I128.fromStringGo U128.fromString I128.fromString
+  cases h : parseToBigInt s with
+  | none => exact ⟨⟨rfl, fun z hz => (by cases hz), fun _ => rfl⟩, ⟨rfl, fun z hz => (by cases hz), fun _ => rfl⟩⟩
+  | some z =>
+    refine ⟨⟨rfl, fun z' hz => (by injection hz with hz; subst hz; rfl), fun hf => ?_⟩,
+      ⟨rfl, fun z' hz => (by injection hz with hz; subst hz; rfl), fun hf => ?_⟩⟩
+    · exact absurd hf (by simp)
+    · exact absurd hf (by simp)
+
+/-- CONTRAST (the variant `*u = v; return err` of the same loader — the seeded change `own-c02-19`): with the store before
+    the check, EVERY text that is not an integer literal overwrites the receiver with the zero value that accompanies the
+    error; so every non-zero receiver is destroyed, whereas the code's order keeps it (`load_failure_never_writes`) -/
+theorem load_store_before_check_writes (r : U128) (q : I128) (s : List Char) (h : parseToBigInt s = none) :
+    U128.loadGen .storeThenCheck r s = (U128.zero, false) ∧ I128.loadGen .storeThenCheck q s = (I128.zero, false) ∧
+    (r ≠ U128.zero → (U128.loadGen .storeThenCheck r s).1 ≠ r ∧ (U128.loadGen .checkThenStore r s).1 = r) := by
+  have hz : U128.loadGen .storeThenCheck r s = (U128.zero, false) := by
+    unfold U128.loadGen U128.fromStringGo U128.fromString; rw [h]; rfl
+  refine ⟨hz, ?_, fun hr => ⟨?_, ?_⟩⟩
+  · unfold I128.loadGen I128.fromStringGo I128.fromString; rw [h]; rfl
+  · rw [hz]; exact fun e => hr e.symm
+  · have := (load_failure_never_writes r q s).1
+    apply this.2.2
+    rw [this.1, h]; rfl
+
+/-- the two orders agree whenever the text parses: the order matters only on failure -/
+example (r : U128) (s : List Char) (z : Int) (h : parseToBigInt s = some z) :
+    U128.loadGen .storeThenCheck r s = U128.loadGen .checkThenStore r s := by
+  unfold U128.loadGen U128.fromStringGo U128.fromString; rw [h]; rfl
+
 /-- `UnmarshalText` / `UnmarshalJSON` / `UnmarshalYAML` of the rendered text overwrite any receiver with the value -/
 theorem unmarshal_roundtrip (u r : U128) (i q : I128) :
     U128.unmarshal r u.toString = (u, true) ∧ I128.unmarshal q i.toString = (i, true) := by
-  unfold U128.unmarshal I128.unmarshal
+  unfold U128.unmarshal I128.unmarshal U128.loadGen I128.loadGen U128.fromStringGo I128.fromStringGo
   rw [string_parse_roundtrip_u, string_parse_roundtrip_i]; exact ⟨rfl, rfl⟩
 
-/-- a failed load leaves the receiver untouched, and `FromStringNoCheck` then gives 0 -/
+/-- a failed load leaves the receiver untouched (instance of `load_failure_never_writes` for `Unmarshal*`), and
+    `FromStringNoCheck` then gives 0 -/
 theorem unmarshal_error_keeps_receiver (r : U128) (q : I128) (s : List Char) (h : parseToBigInt s = none) :
     U128.unmarshal r s = (r, false) ∧ I128.unmarshal q s = (q, false) ∧
       U128.fromStringNoCheck s = U128.zero ∧ I128.fromStringNoCheck s = I128.zero := by
-  unfold U128.unmarshal I128.unmarshal U128.fromStringNoCheck I128.fromStringNoCheck U128.fromString I128.fromString
-  rw [h]; exact ⟨rfl, rfl, rfl, rfl⟩
+  obtain ⟨⟨a1, _, a3⟩, ⟨b1, _, b3⟩⟩ := load_failure_never_writes r q s
+  rw [h] at a1 b1
+  refine ⟨Prod.ext (a3 a1) a1, Prod.ext (b3 b1) b1, ?_, ?_⟩
+  · unfold U128.fromStringNoCheck U128.fromString; rw [h]; rfl
+  · unfold I128.fromStringNoCheck I128.fromString; rw [h]; rfl
 
 /-- constructor from string: whenever the text denotes the integer `z` (is accepted), the result is `z` when it lies in
     the type's range and the nearest bound when it does not -/
@@ -280,23 +325,24 @@ line of the area `format`, and `fmtToken` (skip blanks, run to the next blank) s
     combination, width and precision (except the empty rendering of 0 under precision 0) the text is
     `[blanks][sign][base prefix][zeros][digits][blanks]`, the digits are digits of the verb's base whose Horner value —
     with or without the zero padding — is exactly `|value|`, and the sign is `-` exactly for negative values -/
-theorem format_denotes (st : FmtState) (ch : Char) (base : Nat) (hb : verbBase ch = some base) (u : U128) (i : I128)
-    (hu : ¬ (st.prec = some 0 ∧ u.toNat = 0)) (hi : ¬ (st.prec = some 0 ∧ i.toInt = 0)) :
-    (∃ l zr r D, U128.format st ch u = some (blanks l ++ fmtSign st false ++ fmtPrefix st ch ++ zeroPad zr ++ D ++ blanks r) ∧
+theorem format_denotes (st : FmtState) (ch : Char) (base : Nat) (hb : verbBase ch = some base) (u : U128) (i : I128) :
+    (¬ (st.prec = some 0 ∧ u.toNat = 0) → ∃ l zr r D, U128.format st ch u = some (blanks l ++ fmtSign st false ++ fmtPrefix st ch ++ zeroPad zr ++ D ++ blanks r) ∧
       (∀ c ∈ D, digitVal c < base) ∧ digitsVal base D = u.toNat ∧ digitsVal base (zeroPad zr ++ D) = u.toNat) ∧
-    (∃ l zr r D, I128.format st ch i =
+    (¬ (st.prec = some 0 ∧ i.toInt = 0) → ∃ l zr r D, I128.format st ch i =
         some (blanks l ++ fmtSign st (decide (i.toInt < 0)) ++ fmtPrefix st ch ++ zeroPad zr ++ D ++ blanks r) ∧
       (∀ c ∈ D, digitVal c < base) ∧ digitsVal base D = i.toInt.natAbs ∧
       digitsVal base (zeroPad zr ++ D) = i.toInt.natAbs ∧ (fmtSign st (decide (i.toInt < 0)) = ['-'] ↔ i.toInt < 0)) := by
   constructor
-  · have hz : ¬ (st.prec = some 0 ∧ u.asBigInt = 0) := by
+  · intro hu
+    have hz : ¬ (st.prec = some 0 ∧ u.asBigInt = 0) := by
       rw [U128.asBigInt_eq]; intro ⟨a, b⟩; exact hu ⟨a, by omega⟩
     obtain ⟨l, zr, r, D, h1, h2, h3, h4⟩ := bigFormat_denotes st ch base hb u.asBigInt hz
     have hn : ¬ (u.asBigInt < 0) := by rw [U128.asBigInt_eq]; omega
     rw [decide_eq_false hn] at h1
     rw [U128.asBigInt_eq] at h3 h4
     exact ⟨l, zr, r, D, h1, h2, by simpa using h3, by simpa using h4⟩
-  · have hz : ¬ (st.prec = some 0 ∧ i.asBigInt = 0) := by rw [I128.asBigInt_eq]; exact hi
+  · intro hi
+    have hz : ¬ (st.prec = some 0 ∧ i.asBigInt = 0) := by rw [I128.asBigInt_eq]; exact hi
     obtain ⟨l, zr, r, D, h1, h2, h3, h4⟩ := bigFormat_denotes st ch base hb i.asBigInt hz
     rw [I128.asBigInt_eq] at h3 h4
     have h1' : I128.format st ch i =
@@ -325,16 +371,19 @@ theorem format_plain_is_string (ch : Char) (hch : ch = 'd' ∨ ch = 'v' ∨ ch =
     text `Format` writes, cut to the token `fmt`'s scanner delivers, is read back by `Scan` with the same verb as the
     identical value.  (So `%#x` / `%#X` / `%#b` / `%O` texts that already carry a prefix, `%#o` with its leading `0`,
     zero padding by width or precision, and left or right blank padding all survive the round trip.) -/
-theorem format_reads_back (st : FmtState) (ch : Char) (hch : IsBaseVerb ch) (u : U128) (i : I128)
-    (hu : ¬ (st.prec = some 0 ∧ u.toNat = 0)) (hi : ¬ (st.prec = some 0 ∧ i.toInt = 0)) :
-    (∃ text, U128.format st ch u = some text ∧ U128.scan (fmtToken text) ch = some u) ∧
-    (∃ text, I128.format st ch i = some text ∧ I128.scan (fmtToken text) ch = some i) := by
+theorem format_reads_back (st : FmtState) (ch : Char) (hch : IsBaseVerb ch) (u : U128) (i : I128) :
+    (¬ (st.prec = some 0 ∧ u.toNat = 0) →
+      ∃ text, U128.format st ch u = some text ∧ U128.scan (fmtToken text) ch = some u) ∧
+    (¬ (st.prec = some 0 ∧ i.toInt = 0) →
+      ∃ text, I128.format st ch i = some text ∧ I128.scan (fmtToken text) ch = some i) := by
   constructor
-  · have hz : ¬ (st.prec = some 0 ∧ u.asBigInt = 0) := by
+  · intro hu
+    have hz : ¬ (st.prec = some 0 ∧ u.asBigInt = 0) := by
       rw [U128.asBigInt_eq]; intro ⟨a, b⟩; exact hu ⟨a, by omega⟩
     obtain ⟨text, h1, h2⟩ := bigFormat_reads_back st ch hch u.asBigInt hz
     exact ⟨text, h1, scan_of_parse_u u _ ch (by rw [h2, U128.asBigInt_eq])⟩
-  · have hz : ¬ (st.prec = some 0 ∧ i.asBigInt = 0) := by rw [I128.asBigInt_eq]; exact hi
+  · intro hi
+    have hz : ¬ (st.prec = some 0 ∧ i.asBigInt = 0) := by rw [I128.asBigInt_eq]; exact hi
     obtain ⟨text, h1, h2⟩ := bigFormat_reads_back st ch hch i.asBigInt hz
     exact ⟨text, h1, scan_of_parse_i i _ ch (by rw [h2, I128.asBigInt_eq])⟩
 
@@ -469,7 +518,7 @@ theorem asBigFloat_exact (u : U128) (i : I128) :
     (i.asBigFloat.2 = i.toInt ∧ 64 ≤ i.asBigFloat.1 ∧ bitLen i.toInt.natAbs ≤ i.asBigFloat.1) := by
   have key : ∀ x : Int, (bigFloatSetInt x).2 = x ∧ 64 ≤ (bigFloatSetInt x).1 ∧ bitLen x.natAbs ≤ (bigFloatSetInt x).1 := by
     intro x
-    unfold bigFloatSetInt roundToPrec
+    unfold bigFloatSetInt bigFloatSetIntGen roundToPrec
     simp only []
     refine ⟨?_, Nat.le_max_right _ _, Nat.le_max_left _ _⟩
     rw [if_pos (Nat.le_max_left _ _)]
@@ -483,9 +532,14 @@ theorem asBigFloat_exact (u : U128) (i : I128) :
     unfold I128.asBigFloat; rw [I128.asBigInt_eq]
     exact this
 
-/-- CONTRAST: with a fixed precision of 64 bits instead (`new(big.Float).SetPrec(64).SetInt`) 2^64 + 1 would be rounded to
-    2^64; the modelled `SetInt` keeps it -/
-theorem asBigFloat_contrast : roundToPrec 64 (2^64 + 1) = 2^64 ∧ (bigFloatSetInt (2^64 + 1)).2 = 2^64 + 1 := by decide
+/-- CONTRAST: the same `SetInt` with the precision fixed at 64 beforehand (`bigFloatSetInt64`, the variant
+    `new(big.Float).SetPrec(64).SetInt`, run by the driver line `bigfloat64` against math/big so that the rounding branch of
+    `roundToPrec` is validated) rounds 2^64 + 1 to 2^64 and MaxUint128 up to 2^128; the code's choice of precision keeps both.
+    (`asBigFloat_exact` itself follows directly from that choice: precision ≥ bit length means `roundToPrec` takes its first
+    branch — it records the mechanism, the comparison with math/big carries that `SetInt` is as transcribed.) -/
+theorem asBigFloat_contrast :
+    (bigFloatSetInt64 (2^64 + 1)).2 = 2^64 ∧ (bigFloatSetInt (2^64 + 1)).2 = 2^64 + 1 ∧
+    (bigFloatSetInt64 (2^128 - 1)).2 = 2^128 ∧ U128.max.asBigFloat = (128, 2^128 - 1) := by decide
 
 /-- `UnmarshalYAML` and `Scan` as methods on a receiver: the rendered text (the decimal text through the YAML callback; the
     token of ANY `Format` rendering with a base verb through `Scan` with the same verb) overwrites any receiver with the
@@ -510,14 +564,18 @@ theorem load_into_receiver (r : U128) (q : I128) :
     obtain ⟨a, b, _, _⟩ := unmarshal_error_keeps_receiver r q s hs
     exact ⟨a, b⟩
   · intro t verb h
-    unfold U128.scanInto I128.scanInto U128.scan I128.scan U128.fromString I128.fromString
-    simp only [h, Option.map_none]
-    exact ⟨trivial, trivial⟩
+    obtain ⟨a, b, _, _⟩ := unmarshal_error_keeps_receiver r q (scanText t verb) h
+    exact ⟨a, b⟩
   · intro st ch u i hch hu hi
-    obtain ⟨⟨t1, a1, b1⟩, ⟨t2, a2, b2⟩⟩ := format_reads_back st ch hch u i hu hi
+    obtain ⟨t1, a1, b1⟩ := (format_reads_back st ch hch u i).1 hu
+    obtain ⟨t2, a2, b2⟩ := (format_reads_back st ch hch u i).2 hi
     refine ⟨⟨t1, a1, ?_⟩, ⟨t2, a2, ?_⟩⟩
-    · unfold U128.scanInto; simp only [b1]
-    · unfold I128.scanInto; simp only [b2]
+    · unfold U128.scan at b1
+      show U128.loadGen .checkThenStore r (scanText (fmtToken t1) ch) = (u, true)
+      unfold U128.loadGen U128.fromStringGo; rw [b1]; rfl
+    · unfold I128.scan at b2
+      show I128.loadGen .checkThenStore q (scanText (fmtToken t2) ch) = (i, true)
+      unfold I128.loadGen I128.fromStringGo; rw [b2]; rfl
 
 /-- `Float64()` of the `json.Number` interface is an error for every value (no float is ever emitted into JSON / YAML) -/
 example : U128.float64Method U128.max = none ∧ I128.float64Method I128.min = none := ⟨rfl, rfl⟩
@@ -529,6 +587,13 @@ example : U128.float64Method U128.max = none ∧ I128.float64Method I128.min = n
 is optional (`none` / `[]` when a rewrite no longer spells it in the expected form — then it is simply not compared);
 `agrees*` = absent or equal, `sameChars` = equal as sets (the order of the letters in `strings.ContainsRune(letters, …)`
 does not matter). -/
+
+set_option maxRecDepth 100000 in
+/-- the float range constants as the Go declarations compute them (`float64(math.MaxUint64)`, `math.Nextafter(…, 0)`,
+    `float64(2^128 − 1)`, `float64(math.MaxUint64) + 1`, `float64(±2^127 …)`, over `GoSem.F64`) ARE the literals that
+    `fromFloat64_spec_*` are proved about — closes the chain source literal → `constsComputed` → `constsLiteral` (until now
+    only a run-time comparison in the driver line `consts`) -/
+theorem consts_computed_are_literals : constsComputed = constsLiteral := by decide
 
 /-- `signBit`, `MaxUint128`, `MaxInt128`, `MinInt128`, the two unsigned bounds `FromBigInt` compares with, `maxBigUint128` and
     the integer literals inside the `float64(…)` range constants (`Conv.constsComputed_uses_literals`) -/
